@@ -72,7 +72,7 @@ def run_a7(chk, A7, repo):
             if any(isinstance(x, ast.BinOp) and isinstance(x.op, ast.Pow) and isinstance(x.right, ast.Constant)
                    and x.right.value == 2 for x in ast.walk(arg)):
                 square_nodes.append(n)
-    if len(cov_nodes) < 2 or not square_nodes:
+    if not cov_nodes or not square_nodes:
         raise AnalysisError(f'A7: correlation-to-covariance assignments ({len(cov_nodes)}) or diagonal squaring '
                             f'({len(square_nodes)}) not recognised in OmegaRecord.parse')
     tests = [n for n in cfg.nodes.values() if n.kind == 'test']
@@ -94,6 +94,14 @@ def run_a7(chk, A7, repo):
     if sdflag is None:
         raise AnalysisError('A7: the diagonal squaring is not guarded by a flag')
     chk.instance(A7, f'diagonal squaring `{square_nodes[0].text()}` guarded by `{sdflag}`')
+    forms = {form for _, form in cov_nodes}
+    if forms != {'raw', 'sqrt'}:
+        n0 = cov_nodes[0][0]
+        chk.violation(A7, f.module.rel, f.qualname, f'covariance from correlation only in the form(s) {sorted(forms)}',
+                      f'the diagonal holds standard deviations under `{sdflag}` and variances otherwise (that is why it is '
+                      f'squared under `{sdflag}`), so the correlation must be multiplied with the plain diagonal in one case '
+                      f'and with its square roots in the other; only {sorted(forms)} exists', line=n0.line,
+                      witness='$OMEGA BLOCK(2) STANDARD CORRELATION 2 0.5 3: the covariance is not 0.5*2*3')
     for n, form in cov_nodes:
         pol = guard_polarity(n, sdflag)
         want = {'raw': 'true', 'sqrt': 'false'}.get(form)
@@ -273,3 +281,31 @@ def run_a8(chk, A8, repo):
                       f'taken as unconditional', line=bl.lineno,
                       witness='CL = 1; IF (X.EQ.1) THEN; V = 2; ELSE; CL = 3; ENDIF is read as CL = 3 for all records; '
                               'NM-TRAN keeps CL = 1 when X = 1')
+
+
+def run_a9(chk, A9, repo):
+    """existence guard and use name the same symbol"""
+    m = repo.module('pharmpy.model.external.nonmem.advan')
+    n = 0
+    for f in m.functions.values():
+        for I in [x for x in walk_no_nested(f.node) if isinstance(x, ast.If)]:
+            calls = [c for c in ast.walk(I.test) if isinstance(c, ast.Call) and isinstance(c.func, ast.Attribute)
+                     and c.func.attr in ('find_assignment', 'find_assignment_index') and c.args]
+            for c in calls:
+                tested = unparse(c.args[0])
+                syms = [unparse(s_.args[0]) for b in I.body for s_ in ast.walk(b) if isinstance(s_, ast.Call)
+                        and unparse(s_.func) in ('Expr.symbol', 'sympy.Symbol') and s_.args
+                        and isinstance(s_.args[0], (ast.Name, ast.Constant))]
+                if not syms:
+                    continue
+                n += 1
+                ok = tested in syms
+                chk.instance(A9, f'{f.qualname}: guarded by find_assignment({tested}), uses symbols {syms}: {ok}')
+                if not ok:
+                    chk.violation(A9, m.rel, f.qualname, f'if ...find_assignment({tested}): ... Expr.symbol({syms[0]})',
+                                  f'the branch is entered because `{tested}` is defined, but the expression uses '
+                                  f'`{syms[0]}`', line=I.lineno,
+                                  witness='ADVAN4 with observations in CMT=2 and CMT=3 and S2, S3 defined: the CMT=3 prediction '
+                                          'is scaled by S2')
+    if n < 3:
+        raise AnalysisError(f'A9: only {n} guarded symbol uses found in advan.py')
